@@ -1440,12 +1440,36 @@ package bpmn
 //@   prop C07
 //@   loop 1 for
 //@     cancels ctx
+// The throw event's step is the start event's, with the throw satisfier.
+//@ func (*throwEvent).flow
+//@   prop C01 C11
+//@   flag countcalls
 //@ func (*throwEvent).run
-//@   prop C07 C14
+//@   prop C07 C14 C11 C01
 //@   requires evt.satisfier != nil && tesShape(evt.satisfier) && tesDistinct(evt.satisfier) && tesNoneFull(evt.satisfier) && tesCommonBit(evt.satisfier)
 //@   loop 1 for
 //@     cancels ctx
 //@     invariant evt.satisfier == old(evt.satisfier) && tesShape(evt.satisfier) && tesDistinct(evt.satisfier) && tesNoneFull(evt.satisfier) && tesCommonBit(evt.satisfier)
+//@     invariant evt.mch == old(evt.mch)
+//@     iter ensures [a-start-message-starts-exactly-one-token]
+//@       isRecv(ev(old(evlen))) && evch(ev(old(evlen))) == evt.mch && is(evval(ev(old(evlen))), startMessage) ==>
+//@         ndirect(code("(*throwEvent).flow")) == old(ndirect(code("(*throwEvent).flow"))) + 1
+//@     iter ensures [at-most-one-token-per-step] ndirect(code("(*throwEvent).flow")) <= old(ndirect(code("(*throwEvent).flow"))) + 1
+//@     iter ensures [an-event-starts-a-token-only-before-the-node-was-passed-and-only-when-every-condition-is-met]
+//@       ndirect(code("(*throwEvent).flow")) > old(ndirect(code("(*throwEvent).flow"))) ==>
+//@         isRecv(ev(old(evlen))) && evch(ev(old(evlen))) == evt.mch &&
+//@         (is(evval(ev(old(evlen))), startMessage) ||
+//@          (is(evval(ev(old(evlen))), eventMessage) && !old(evt.activated) &&
+//@           ndirectTrue(code("logic|(*ThrowEventSatisfier).Satisfy")) == old(ndirectTrue(code("logic|(*ThrowEventSatisfier).Satisfy"))) + 1))
+//@     iter ensures [a-satisfying-event-before-the-node-was-passed-starts-a-token]
+//@       ndirectTrue(code("logic|(*ThrowEventSatisfier).Satisfy")) > old(ndirectTrue(code("logic|(*ThrowEventSatisfier).Satisfy"))) ==>
+//@         ndirect(code("(*throwEvent).flow")) == old(ndirect(code("(*throwEvent).flow"))) + 1
+//@     iter ensures [the-first-token-passing-gets-the-outgoing-flows-later-ones-are-told-the-node-is-complete]
+//@       isRecv(ev(old(evlen))) && evch(ev(old(evlen))) == evt.mch && is(evval(ev(old(evlen))), nextActionMessage) ==>
+//@         evt.activated &&
+//@         (!old(evt.activated) ==> count(Send, flowAction) == old(count(Send, flowAction)) + 1 && count(Send, completeAction) == old(count(Send, completeAction)) &&
+//@            len(lastval(Send, flowAction).(flowAction).unconditionalFlows) == 0 && lastval(Send, flowAction).(flowAction).response == nil) &&
+//@         (old(evt.activated) ==> count(Send, completeAction) == old(count(Send, completeAction)) + 1 && count(Send, flowAction) == old(count(Send, flowAction)))
 // The cancel handshake of a sub-process (C10, the twin of the generic task's): an interrupting boundary event asks the
 // activity to stop; a turn of the loop that takes a cancel message and goes on is a refusal - the normal flow continues.
 //@ func (*subProcess).run
